@@ -93,6 +93,13 @@ def run(tier, seed):
                                         scales=(2.0 ** -37, 2.0 ** -36, 2.0 ** -20, 2.0 ** 30, 2.0 ** -38, 2.0 ** -35, 1e-11)):
         scn["alt_modes"] = True
         items.append(scn)
+    # sparse data (exact zeros in many coordinates, shared zeros included): the five identifiers are increasing transforms of ONE
+    # Euclidean distance on such data as on any other - a divisor or a scale is a constant of the data set, not of the pair
+    rng5 = random.Random(seed * 1000003 + 1103)
+    for i in range(160 if thorough else 50):
+        scn = S.random_float_scenario(rng5, metric=FAMILY[i % 5], n=rng5.randrange(5, 12), nq=5, lattice=False, mode="metric", classes=rng5.choice([2, 3]), dim=rng5.randrange(3, 7), copies=False, sparse=True)
+        scn["alt_modes"] = True
+        items.append(scn)
     judged = []
     for scn in items:
         base, why = S.run_scenario(scn)
